@@ -32,7 +32,7 @@ Definition child_names (t : loc) (p : path) : list string :=
 (* ------------------------------------------------------------------ protovalidate rules of the sourcedef / schema protos *)
 (* hand-copied from proto/j5build/j5/sourcedef/v1/file.proto and proto/j5/j5/schema/v1/schema.proto (the
    (buf.validate.field) / (buf.validate.oneof) annotations): (schema, JSON name, proto field name, rule) *)
-Inductive vrule := VReqMsg | VReqRepeated | VReqString | VEnumNonZero | VNamePattern | VOneofRequired.
+Inductive vrule := VReqMsg | VReqRepeated | VReqString | VEnumNonZero | VNamePattern | VOneofRequired | VEntityPattern.
 Definition vrules : list (string * string * string * vrule) :=
   [ ("j5.sourcedef.v1.Entity", "status", "status", VReqRepeated);
     ("j5.sourcedef.v1.APIMethod", "httpMethod", "http_method", VEnumNonZero);
@@ -42,11 +42,12 @@ Definition vrules : list (string * string * string * vrule) :=
     ("j5.sourcedef.v1.TopicType_Event", "message", "message", VReqMsg);
     ("j5.sourcedef.v1.TopicMethod", "name", "name", VNamePattern);
     ("j5.schema.v1.Field", "", "type", VOneofRequired);
+    ("j5.schema.v1.EntityObject", "entity", "entity", VEntityPattern);
     ("j5.schema.v1.IntegerField", "format", "format", VEnumNonZero);
     ("j5.schema.v1.KeyFormat_Custom", "pattern", "pattern", VReqString) ].
 (* the annotations [vrules] was written from, as the translator reads them from the two .proto files on every run
    (WalkSchemaGen.validate_annotations; agreement lemma validate_sources_agree): `response` required = false is no
-   rule; `entity` (EntityObject) is [vunmodelled] *)
+   rule *)
 Definition vrule_sources : list (string * string * string) :=
   [ ("file.proto", "status", "(buf.validate.field).required = true");
     ("file.proto", "http_method", "(buf.validate.field).enum = { not_in: 0 defined_only: true }");
@@ -64,10 +65,10 @@ Definition vrule_sources : list (string * string * string) :=
 Definition vrule_covered (row : string * string * string) : bool :=
   let f := snd (fst row) in
   existsb (fun r => String.eqb (snd (fst r)) f || (String.eqb f "oneof" && String.eqb (snd (fst r)) "type")) vrules
-  || String.eqb f "response" || String.eqb f "entity".
+  || String.eqb f "response".
 
 (* schemas whose rules are not modelled (string patterns on implicit-presence fields) *)
-Definition vunmodelled : list string := ["j5.schema.v1.EntityObject"].
+Definition vunmodelled : list string := [].
 
 Definition is_upper (c : N) : bool := N.leb 65 c && N.leb c 90.
 Definition is_lower (c : N) : bool := N.leb 97 c && N.leb c 122.
@@ -77,6 +78,12 @@ Definition name_pattern_ok (l : list N) : bool :=
   match l with
   | c :: (_ :: _) as r => is_upper c && forallb (fun x => is_upper x || is_lower x || is_digit x) r
   | _ => false
+  end.
+(* ^[A-Z][a-zA-Z0-9_]*$ on a string without presence: the empty string is validated too *)
+Definition entity_pattern_ok (l : list N) : bool :=
+  match l with
+  | c :: r => is_upper c && forallb (fun x => is_upper x || is_lower x || is_digit x || N.eqb x 95) r
+  | [] => false
   end.
 Definition lit_unspecified : list N := runes_of_string "UNSPECIFIED".
 Fixpoint is_suffix_N (s l : list N) : bool :=
@@ -104,6 +111,7 @@ Definition check_rule (t : loc) (vals : list (path * sval)) (p : path) (r : stri
           | None => []
           end
       | VOneofRequired => match child_names t p with [] => [(p, pn)] | _ => [] end
+      | VEntityPattern => if entity_pattern_ok (str_at vals (p ++ [jn])) then [] else [(p, pn)]
       end
   end.
 
